@@ -239,7 +239,7 @@ class FileDataPdu(AbstractPduBase):
             rec_cont_state = RecordContinuationState((data[current_idx] & 0xC0) >> 6)
             segment_metadata_len = data[current_idx] & 0x3F
             current_idx += 1
-            if current_idx + segment_metadata_len >= len(data):
+            if current_idx + segment_metadata_len > len(data):
                 raise BytesTooShortError(current_idx + segment_metadata_len, len(data))
             metadata = data[current_idx : current_idx + segment_metadata_len]
             current_idx += segment_metadata_len
@@ -250,7 +250,7 @@ class FileDataPdu(AbstractPduBase):
             struct_arg_tuple = ("!I", 4)
         else:
             struct_arg_tuple = ("!Q", 8)
-        if current_idx + struct_arg_tuple[1] >= len(data):
+        if current_idx + struct_arg_tuple[1] > len(data):
             raise ValueError("Packet too small to accommodate offset")
         file_data_packet._params.offset = struct.unpack(
             struct_arg_tuple[0],
